@@ -13,8 +13,8 @@ Oracle (differential against the multislice pipeline + independent float64 post-
   position p must equal the wave of `Probe(extent=L/f, gpts=N'/f)` (through the unit-cell potential) placed at p
   modulo the window and cyclically shifted so that the window starts at rint(p/d - w//2) (the documented crop).
 * every code-under-test result is produced through one of the public routes
-  SMatrix.build().reduce / SMatrix.reduce / SMatrix.scan / SMatrix.multislice().reduce / SMatrixArray.multislice,
-  eagerly or lazily, with max_batch_reduction 1/3/auto; a lazy and an eager run of the same route are also
+  SMatrix.build().reduce / SMatrix.build().scan / SMatrix.reduce / SMatrix.scan / SMatrix.multislice().reduce /
+  SMatrixArray.multislice, eagerly or lazily, with max_batch_reduction 1/3/auto; a lazy and an eager run of the same route are also
   compared with each other.
 * a monitor wrapped around SMatrixArray._calculate_ctf_coefficients checks, inside the real pipeline, that the
   coefficient vector handed to the reduction has unit 2-norm (|c|^2 summed over plane waves) for every CTF.
@@ -25,20 +25,22 @@ from vf import gen as G
 
 PROPERTY = "C06"
 TECHNIQUE = "runtime monitoring; differential oracle against Probe.multislice plus float64 Fourier-crop / window-shift model"
-RULE = ("random orthogonal cells (1-4 atoms), grids 18-40 (rectangular, odd/even), energies 60-300 keV, S-matrix cutoff "
-        "12-28 mrad, CTF cutoff equal or smaller, CTF aberrations: none (30 %), random non-zero set of 1-5 polar "
-        "coefficients incl. angles (60 %), plus a defocus ensemble axis (10 %); potential none/atoms/frozen phonons "
-        "(interpolation 1) or vacuum/window-periodic crystal (interpolation 2-3, also anisotropic (1,2),(3,1)); "
-        "downsample False/cutoff; Custom (incl. cell corners, boundary and outside-cell points)/Line/Grid scans; "
-        "detector none/annular/flexible/pixelated/segmented/two at once; routes build-reduce, SMatrix.reduce, "
-        "SMatrix.scan, SMatrix.multislice, SMatrixArray.multislice; eager and lazy; max_batch_reduction 1/3/auto; "
-        "non-trivial = at least one non-zero aberration coefficient and at least two probe positions; "
-        "distinct = distinct case signature")
+RULE = ("random orthogonal cells (1-4 atoms), energies 60-300 keV, S-matrix cutoff 8-36 mrad chosen so that the (window) "
+        "probe holds several beams, grids 18-40 (unit grids 10-18 times the interpolation in window mode; rectangular, "
+        "odd/even) enlarged until the soft aperture fits inside the band kept by downsample=cutoff, CTF cutoff equal or "
+        "60-95 % of it, CTF aberrations: none (30 %), random non-zero set of 1-5 polar coefficients incl. angles with "
+        "0.5-6 rad at the aperture edge (60 %), plus a defocus ensemble axis (10 %); potential none/atoms/frozen phonons "
+        "(interpolation 1) or vacuum/window-periodic crystal (interpolation 2-3, also anisotropic (1,2),(3,1),(2,3)); "
+        "downsample False/cutoff; Custom (incl. cell corners, boundary and outside-cell points)/Line/Grid/default-Grid "
+        "scans; detector none/annular/flexible/pixelated/segmented/annular+waves; routes build-reduce, SMatrix.reduce, "
+        "SMatrix.scan, SMatrixArray.scan, SMatrix.multislice, SMatrixArray.multislice; eager and lazy (both are run); "
+        "max_batch_reduction 1/3/auto with dask chunk-size 128 MB or 48 KiB; non-trivial = at least one non-zero aberration coefficient and "
+        "at least two probe positions; distinct = distinct case signature")
 CLAUSES = ["exit-wave:values", "exit-wave:total", "measurement:values", "window-probe:values", "window-probe:total",
            "lazy-equals-eager:values", "ctf-coefficients-unit-norm", "aberrated-exit-wave:values",
            "aberrated-window-probe:values", "aberrated-measurement:values"]
-QUICK = dict(n=34, time=50)
-THOROUGH = dict(n=960, time=440, shards=16)
+QUICK = dict(n=28, time=40)
+THOROUGH = dict(n=800, time=400, shards=16)
 
 ABERRATIONS = ["C10", "C12", "C21", "C23", "C30", "C32", "C34", "C41", "C43", "C45", "C50", "C52", "C54", "C56"]
 ANGLE_OF = {"C12": "phi12", "C21": "phi21", "C23": "phi23", "C32": "phi32", "C34": "phi34", "C41": "phi41",
@@ -46,8 +48,8 @@ ANGLE_OF = {"C12": "phi12", "C21": "phi21", "C23": "phi23", "C32": "phi32", "C34
 
 # tolerances (float32 pipelines; calibrated, see final report)
 RTOL_WAVE = 1e-4      # relative to max|psi| of the reference
-RTOL_TOTAL = 2e-4
-RTOL_MEAS = 3e-4      # relative to max of the reference measurement
+RTOL_TOTAL = 5e-5
+RTOL_MEAS = 1e-4      # relative to max of the reference measurement
 
 
 # --------------------------------------------------------------------------- generation
@@ -97,6 +99,29 @@ def _rand_scan(rng):
     return {"kind": "grid-default"}
 
 
+def _fit_aperture(ug, ext, kcut_probe):
+    """Enlarge the grid until the probe aperture *including its soft edge* (about one reciprocal pixel) fits inside
+    the symmetric part of the grid kept by downsample="cutoff" (floor(2/3 N d/max d) points, lower parity): on
+    coarser grids the down-sampled S-matrix cannot hold all beams of the equivalent probe and the two are not
+    comparable (the property presupposes an S-matrix that contains the probe's beams)."""
+    ug = [int(ug[0]), int(ug[1])]
+    for _ in range(200):
+        d = [ext[0] / ug[0], ext[1] / ug[1]]
+        ok = True
+        for i in range(2):
+            kept = int(np.floor((2.0 / 3.0) / max(d) * ext[i] + 1e-9)) - 1     # at least this many points are kept
+            m_sym = (kept - 1) // 2 - 1
+            if kcut_probe * ext[i] + 1.5 > m_sym:
+                ok = False
+        if ok:
+            break
+        j = 0 if d[0] >= d[1] else 1
+        ug[j] += 1
+        if d[0] == d[1]:
+            ug[1 - j] += 1
+    return ug
+
+
 def gen(rng, tier):
     mode = "full" if rng.random() < 0.6 else "window"
     energy = float(rng.choice([60e3, 80e3, 100e3, 200e3, 300e3]))
@@ -120,6 +145,7 @@ def gen(rng, tier):
     cutoff = float(min(36.0, lower * rng.uniform(1.0, 2.2)))
     dmax = 0.8 * (2.0 / 3.0) * lam / (2.0 * cutoff * 1e-3)
     ug = [max(int(ug[0]), int(np.ceil(lx / dmax))), max(int(ug[1]), int(np.ceil(ly / dmax)))]
+    ug = _fit_aperture(ug, (lx, ly), cutoff * 1e-3 / lam)
     gpts = [ug[0] * (interp[0] if mode == "window" else 1), ug[1] * (interp[1] if mode == "window" else 1)]
     ctf_cutoff = cutoff if rng.random() < 0.7 else float(cutoff * rng.uniform(0.6, 0.95))
     r = rng.random()
@@ -133,11 +159,11 @@ def gen(rng, tier):
             ens = [float(-d * rng.uniform(0.5, 3)), float(d * rng.uniform(0.2, 2)), float(d * rng.uniform(2.1, 4))][
                   : int(rng.integers(2, 4))]
     det = str(rng.choice(["none", "none", "annular", "flexible", "pixelated", "segmented", "two"]))
-    routes = ["build-reduce", "build-reduce", "smatrix-reduce", "smatrix-scan"]
+    routes = ["build-reduce", "build-reduce", "smatrix-reduce", "smatrix-scan", "array-scan"]
     if potential in ("atoms", "periodic"):
         routes += ["smatrix-multislice", "array-multislice"]
     route = str(rng.choice(routes))
-    if route == "smatrix-scan" and det == "none":
+    if route in ("smatrix-scan", "array-scan") and det == "none":
         det = "flexible"
     scan = _rand_scan(rng)
     if scan["kind"] == "grid-default":
@@ -174,11 +200,18 @@ def fixed_cases(tier):
     out = [dict(base)]
     out.append(dict(base, detector="flexible", route="smatrix-scan", lazy=True, downsample="cutoff"))
     out.append(dict(base, potential="frozen", detector="annular", route="smatrix-reduce", lazy=True, disable_chunks=True))
+    out.append(dict(base, detector="segmented", route="array-scan", max_batch_reduction=1,
+                    scan={"kind": "grid", "start": [0.1, 0.2], "end": [0.6, 0.9], "gpts": [2, 3], "endpoint": True}))
     out.append(dict(base, mode="window", potential="none", gpts=[36, 30], interpolation=[3, 2],
                     cell=dict(base["cell"], cell=[4.0, 3.5, 4.0]), aberrations={"C10": -60.0, "C21": 900.0, "phi21": 1.0}))
     out.append(dict(base, mode="window", potential="periodic", gpts=[28, 32], interpolation=[2, 2], downsample="cutoff",
                     cell={"cell": [3.5, 4.0, 3.0], "symbols": ["Si"], "positions": [[1.0, 1.5, 1.0]]},
                     aberrations={"C10": 50.0}, lazy=True))
+    # probe positions more than half a window outside the cell (periodic continuation), one reduction batch per position
+    out.append(dict(base, mode="window", potential="none", gpts=[26, 32], interpolation=[2, 2],
+                    cell=dict(base["cell"], cell=[3.8, 3.2, 4.0]), aberrations={"C10": 40.0, "C12": 25.0, "phi12": 0.4},
+                    scan={"kind": "custom", "points": [[0.47, 0.85], [1.4, 1.2], [2.3, 0.5], [-0.6, 0.31], [0.1, -1.3]]},
+                    max_batch_reduction=1))
     return out
 
 
@@ -274,6 +307,9 @@ def _run_prism(case, potential, extent, gpts, scan, ctf, detectors, lazy):
     if route == "build-reduce":
         sa = s.build(lazy=lazy, max_batch=case["max_batch_multislice"])
         return _compute(sa.reduce(scan=scan, ctf=ctf, detectors=detectors, max_batch_reduction=mbr))
+    if route == "array-scan":
+        sa = s.build(lazy=lazy, max_batch=case["max_batch_multislice"])
+        return _compute(sa.scan(scan=scan, ctf=ctf, detectors=detectors, max_batch_reduction=mbr))
     if route == "smatrix-reduce":
         return _compute(s.reduce(scan=scan, ctf=ctf, detectors=detectors, max_batch_reduction=mbr,
                                  max_batch_multislice=case["max_batch_multislice"],
@@ -361,7 +397,16 @@ def _check(ctx, case):
     with G.Wrapped() as w:
         w.patch(SMatrixArray, "_calculate_ctf_coefficients", wrap)
         # lazy graphs run in dask threads; counters are plain python ints (GIL-protected increments)
-        got = _run_prism(case, potential, extent, gpts, scan, ctf, detectors, case["lazy"])
+        try:
+            got = _run_prism(case, potential, extent, gpts, scan, ctf, detectors, case["lazy"])
+        except Exception as e:
+            # Nothing to compare when the conventional pipeline refuses the same workload with the same error
+            # (e.g. an aberration ensemble + LineScan + AnnularDetector cannot allocate its measurement in either
+            # pipeline: a detector/measurement matter outside this property).  Anything else is re-raised.
+            if _reference_refuses(case, potential, extent, detectors, ref_probe_full, e):
+                ctx.note("both-pipelines-refuse:" + type(e).__name__)
+                return
+            raise
         other = _run_prism(case, potential, extent, gpts, _scan(case, extent), _ctf(case),
                            _detectors(case, ref_probe_full), not case["lazy"])
     if seen["n"] == 0:
@@ -371,13 +416,26 @@ def _check(ctx, case):
     G.compare_objects(ctx, got, other, "lazy-equals-eager", rtol=RTOL_MEAS, atol_rel=1e-6, meta=True)
 
     got_list = got if isinstance(got, list) else [got]
-    npos = int(np.prod(_scan_shape(got_list[0], case))) if True else 0
+    npos = int(np.prod(_scan_shape(got_list[0], case)))
     ctx.nontrivial(aberrated and npos >= 2)
 
     if mode == "full":
         _check_full(ctx, case, potential, extent, gpts, detectors, got_list, pre, ref_probe_full)
     else:
         _check_window(ctx, case, atoms, extent, gpts, f, detectors, got_list, pre)
+
+
+def _reference_refuses(case, potential, extent, detectors, probe, err):
+    try:
+        scan = _scan(case, extent)
+        if potential is None:
+            import abtem
+            potential = abtem.PotentialArray(np.zeros((1,) + tuple(probe.gpts), dtype=np.float32), slice_thickness=1.0,
+                                             sampling=probe.sampling)
+        probe.multislice(potential, scan=scan, detectors=detectors, lazy=False)
+    except Exception as e2:
+        return type(e2) is type(err) and str(e2) == str(err)
+    return False
 
 
 def _scan_shape(obj, case):
@@ -423,7 +481,7 @@ def _compare(ctx, case, g, r, pre):
         ok = ctx.close(ga, want, "exit-wave:values", rtol=RTOL_WAVE, scale=scale, route=case["route"])
         ctx.close(total(ga), total(want), "exit-wave:total", rtol=RTOL_TOTAL, scale=1.0)
         if pre:
-            ctx.clauses[pre + "exit-wave:values"] += 1
+            ctx.expect(ok, pre + "exit-wave:values", route=case["route"])
         return ok
     ctx.monitor("measurements-compared:" + type(r).__name__)
     if isinstance(r, abtem.measurements.DiffractionPatterns) and ga.shape != ra.shape:
@@ -436,9 +494,9 @@ def _compare(ctx, case, g, r, pre):
     if not ctx.expect(ga.shape == ra.shape, "measurement:shape", got=list(ga.shape), want=list(ra.shape)):
         return
     scale = float(np.abs(ra).max())
-    ctx.close(ga, ra, "measurement:values", rtol=RTOL_MEAS, scale=scale, kind=type(r).__name__, route=case["route"])
+    ok = ctx.close(ga, ra, "measurement:values", rtol=RTOL_MEAS, scale=scale, kind=type(r).__name__, route=case["route"])
     if pre:
-        ctx.clauses[pre + "measurement:values"] += 1
+        ctx.expect(ok, pre + "measurement:values", kind=type(r).__name__, route=case["route"])
 
 
 def _check_window(ctx, case, atoms, extent, gpts, f, detectors, got_list, pre):
@@ -483,10 +541,10 @@ def _check_window(ctx, case, atoms, extent, gpts, f, detectors, got_list, pre):
                 res = float(np.abs(ga[..., j, :, :] - want).max())
                 if best is None or res < best[0]:
                     best = (res, want)
-            ctx.close(ga[..., j, :, :], best[1], "window-probe:values", rtol=RTOL_WAVE, scale=scale, position=p.tolist(),
-                      ncand=len(cands))
+            ok = ctx.close(ga[..., j, :, :], best[1], "window-probe:values", rtol=RTOL_WAVE, scale=scale,
+                           position=p.tolist(), ncand=len(cands))
             if pre:
-                ctx.clauses[pre + "window-probe:values"] += 1
+                ctx.expect(ok, pre + "window-probe:values", position=p.tolist())
         ctx.close(total(ga), total(ref), "window-probe:total", rtol=RTOL_TOTAL, scale=1.0)
 
     for g, det in zip(meas, dets):
@@ -504,10 +562,10 @@ def _check_window(ctx, case, atoms, extent, gpts, f, detectors, got_list, pre):
             continue
         ga = ga.reshape(ra.shape)
         ctx.monitor("measurements-compared:" + type(r).__name__)
-        ctx.close(ga, ra, "measurement:values", rtol=RTOL_MEAS, scale=float(np.abs(ra).max()), kind=type(r).__name__,
-                  route=case["route"], mode="window")
+        ok = ctx.close(ga, ra, "measurement:values", rtol=RTOL_MEAS, scale=float(np.abs(ra).max()), kind=type(r).__name__,
+                       route=case["route"], mode="window")
         if pre:
-            ctx.clauses[pre + "measurement:values"] += 1
+            ctx.expect(ok, pre + "measurement:values", kind=type(r).__name__, mode="window")
 
 
 def _corner_candidates(p, d, wg):
